@@ -36,7 +36,7 @@ MUTANTS = {
 def sconsts(mix, reqs, keys, crashes=0, faults=0, **over):
     c = dict(seqfamily.BASE)
     c.update(MaxI=3, Keys=set(keys), Reqs=set(reqs), Catalog=Raw("<- Cat" + mix), MaxCrashes=crashes, MaxFaults=faults, MaxCloses=0,
-             LockMode="all", UsePreLock=True, DupCheck=True, StoreBeforeSign=True, FaultIgnored=False, UnlockEarly=False, StoreMode="atomic", BusyDropsMap=False, AbandonReleasesLocks=False)
+             LockMode="all", UsePreLock=True, DupCheck=True, StoreBeforeSign=True, FaultIgnored=False, UnlockEarly=False, StoreMode="atomic", BusyDropsMap=False, AbandonReleasesLocks=False, FetchCache=False)
     c.update(over)
     return c
 
@@ -392,6 +392,18 @@ def race_scenarios(prop, seed, wd, n, conc):
     if b_:
         b_["origin"] = "mutant AbandonReleasesLocks=TRUE violating NoDoubleProposal"
         behs.append(b_)
+    if prop == "C01":
+        # the two endpoints keep ONE record per key: the design in which the store remembers what single requests wrote, but not what
+        # batches wrote, and prefers that to the database (FetchCache) signs a double vote on the three-request mix - that run, as
+        # a schedule; the shipped design passes the same mix
+        rs = tlc("MCSigner", make_cfg(sconsts("Endpoints", list("abc"), ["k1", "k2"]), invariants=["NoSlashableAtt", "Linearizable"], deadlock=False), wd, name="Signer_Endpoints", timeout=600)
+        require_ok(rs, "Signer(Endpoints)")
+        rm = tlc("MCSigner", make_cfg(sconsts("Endpoints", list("abc"), ["k1", "k2"], FetchCache=True), invariants=["NoSlashableAtt"], deadlock=False), wd, name="mut_FetchCache", timeout=600)
+        require_killed(rm, "FetchCache=TRUE", ["NoSlashableAtt"])
+        b_ = behaviour_from_trace(rm.trace)
+        if b_:
+            b_["origin"] = "mutant FetchCache=TRUE violating NoSlashableAtt"
+            behs.append(b_)
     scs = []
     for i, b in enumerate(behs):
         scs.append(scenario_for(b, "%s-race-%s%d" % (prop, "atk" if b["attack"] else "sim", i), conc))
